@@ -9,7 +9,7 @@ import tempfile
 if '/repo' not in sys.path:
     sys.path.insert(0, '/repo')
 
-from pymtl3 import Bits, DefaultPassGroup, InPort, OutPort
+from pymtl3 import DefaultPassGroup, InPort, OutPort
 from pymtl3.datatypes import is_bitstruct_class, mk_bits
 from pymtl3.passes.backends.verilog import VerilogTranslationPass
 from pymtl3.passes.backends.yosys import YosysTranslationPass
